@@ -280,7 +280,7 @@ def one_history(ctx, rng, kind, with_objective=True, max_constraints=4):
             # something else happens to the model between two constraints: objective terms merged in from another model of the
             # same class, or the history continues on a copy; recorded constraints and the ancilla count stay what they were
             import copy as _copy
-            how = rng.choice(["update-with-model", "iadd-model", "deepcopy", "copy.copy", "copy()", "copy-constructor"])
+            how = rng.choice(["update-with-model", "iadd-model", "deepcopy", "copy.copy", "copy()", "copy-constructor", "update-into-fresh-model"])
             c0, a0 = H.constraints, H.num_ancillas
             t0 = ref.from_raw(kind, dict(H))
             extra = T()
@@ -289,6 +289,11 @@ def one_history(ctx, rng, kind, with_objective=True, max_constraints=4):
             w_ = {"model": T.__name__, "history": hist + [[how]]}
             if how == "update-with-model":
                 okb, _ = ctx.call("update", H.update, extra, _w=w_)
+            elif how == "update-into-fresh-model":
+                # the documented way to merge: a fresh model of the class takes the constrained one in with update(); the history
+                # goes on with the new model (whose next constraints need fresh ancillas), the old one keeps what it recorded
+                H2 = T()
+                okb, _ = ctx.call("update", H2.update, H, _w=w_)
             elif how == "iadd-model":
                 okb, H2 = ctx.call("iadd", H.__iadd__, extra, _w=w_)
             elif how == "deepcopy":
@@ -305,7 +310,7 @@ def one_history(ctx, rng, kind, with_objective=True, max_constraints=4):
                 if how != "iadd-model" and (H2 is H or type(H2) is not T or ref.from_raw(kind, dict(H2)) != t0):
                     ctx.violation("%s:copy-differs" % how, "%s gave %s %r" % (how, type(H2).__name__, dict(H2)), w_)
                     return
-                if how in ("deepcopy", "copy()", "copy-constructor") and len(left_behind) < 3:
+                if how in ("deepcopy", "copy()", "copy-constructor", "update-into-fresh-model") and len(left_behind) < 3:
                     # the history goes on with the copy; the original keeps what it recorded so far
                     left_behind.append((H, {k_: [dict(p_) for p_ in v_] for k_, v_ in H.constraints.items()}, H.num_ancillas, how))
                 H = H2
